@@ -661,7 +661,9 @@ impl Parser {
                 Ok(Expr::untyped(ExprEnum::Block(stmts), meta))
             }
             None => {
-                let meta = self.tokens.peek().unwrap().1;
+                // at the end of the input there is no next token, the missing `}` is
+                // reported by the caller's `expect(RightBrace)`
+                let meta = self.tokens.peek().map(|t| t.1).unwrap_or_default();
                 Ok(Expr::untyped(ExprEnum::TupleLiteral(vec![]), meta))
             }
         }
